@@ -26,15 +26,18 @@ import (
 // its caller's scope.
 
 type c09Node struct {
-	T     string     // let | probe | for | fndef | call | partial | cfdef | cfcall | cof | blk | if
-	Name  string     // let/probe: variable; fndef/call: function; partial: partial name; cf*: content name
+	T     string     // let | probe | for | fndef | call | partial | pagain | cfdef | cfcall | cof | blk | if | hash
+	Name  string     // let/probe: variable; fndef/call: function; partial/pagain: partial name; cf*: content name; hash: the variable holding the hash
 	A     c09Arg     // let: right-hand side
 	Args  []c09Arg   // call: one argument per parameter of the function
 	ID    int        // probe id
 	K, V  string     // for: loop variables (K may be "")
 	Ps    []string   // fndef: parameters (0..3 distinct names)
 	Elems []c09Arg   // for
-	Data  []c09Datum // partial/cfcall/cof/blk: name, value pairs
+	Data  []c09Datum // partial/pagain/cfcall/cof/blk: name, value pairs of an inline hash; hash: the pairs of the hash
+	HVar  string     // partial/pagain/cfcall/cof/blk: the data is the hash held in this variable (no inline hash)
+	HKeys []string   // with HVar: the keys of that hash (generation only)
+	Go    bool       // hash: not a let in the template but a Go map[string]interface{} put in the render context
 	Body  []*c09Node
 	Label string // probe: where it sits (after-<construct> | in-<construct> | top)
 }
@@ -56,9 +59,21 @@ type c09Datum struct {
 // ---- reference interpreter (environment chain)
 
 type c09Env struct {
-	vars    map[string]string // "-" = bound to nil; "*" = bound to a value the oracle does not predict (a call's value)
-	fromVar map[string]bool   // parameters whose argument was a variable read
+	vars    map[string]string  // "-" = bound to nil; "*" = bound to a value the oracle does not predict (a call's value)
+	hashes  map[string][]c09KV // variables holding a hash: a hash is a value, nothing that runs later changes it
+	fromVar map[string]bool    // parameters whose argument was a variable read
 	outer   *c09Env
+}
+
+type c09KV struct{ K, V string }
+
+func (e *c09Env) hash(n string) []c09KV {
+	for ; e != nil; e = e.outer {
+		if h, ok := e.hashes[n]; ok {
+			return h
+		}
+	}
+	return nil
 }
 
 func c09Child(e *c09Env) *c09Env {
@@ -144,7 +159,17 @@ func (m *c09Machine) call(n *c09Node, env *c09Env) {
 }
 
 // withData: the values are evaluated where the hash is written (in), the names are bound in a child of e.
-func (m *c09Machine) withData(e *c09Env, data []c09Datum, in *c09Env) *c09Env {
+// A hash held in a variable was evaluated where it was written; the construct binds its pairs as they were then,
+// however often and by whatever the same hash was used before.
+func (m *c09Machine) withData(e *c09Env, n *c09Node, in *c09Env) *c09Env {
+	if n.HVar != "" {
+		c := c09Child(e)
+		for _, kv := range in.hash(n.HVar) {
+			c.vars[kv.K] = kv.V
+		}
+		return c
+	}
+	data := n.Data
 	vals := make([]string, len(data))
 	for i, d := range data {
 		vals[i] = m.eval(d.A, in)
@@ -201,9 +226,23 @@ func (m *c09Machine) run(ns []*c09Node, env *c09Env) {
 			if m.cfLexical {
 				base = d.env
 			}
-			m.run(d.n.Body, m.withData(base, n.Data, env))
+			m.run(d.n.Body, m.withData(base, n, env))
 		case "partial", "cof", "blk":
-			m.run(n.Body, m.withData(env, n.Data, env))
+			if n.T == "partial" {
+				m.defs[n.Name] = c09Closure{n, nil}
+			}
+			m.run(n.Body, m.withData(env, n, env))
+		case "pagain": // the same partial rendered again: a partial has no scope of its own to remember
+			m.run(m.defs[n.Name].n.Body, m.withData(env, n, env))
+		case "hash":
+			h := make([]c09KV, len(n.Data))
+			for i, d := range n.Data {
+				h[i] = c09KV{d.K, m.eval(d.A, env)}
+			}
+			if env.hashes == nil {
+				env.hashes = map[string][]c09KV{}
+			}
+			env.hashes[n.Name] = h
 		}
 	}
 }
@@ -263,11 +302,12 @@ type c09Expect struct {
 }
 
 type c09Case struct {
-	Tmpl     string            `json:"tmpl"`
-	Partials map[string]string `json:"partials,omitempty"`
-	Seq      []c09Expect       `json:"seq"` // probes in execution order
-	Shape    string            `json:"shape"`
-	Feat     []string          `json:"feat,omitempty"` // operand forms present (distribution tags only)
+	Tmpl     string                       `json:"tmpl"`
+	Partials map[string]string            `json:"partials,omitempty"`
+	Maps     map[string]map[string]string `json:"maps,omitempty"` // Go maps (map[string]interface{}) put in the render context under these names
+	Seq      []c09Expect                  `json:"seq"`            // probes in execution order
+	Shape    string                       `json:"shape"`
+	Feat     []string                     `json:"feat,omitempty"` // operand forms present (distribution tags only)
 }
 
 func c09JSON(v interface{}) string {
@@ -355,6 +395,13 @@ func c09Eval(cs *c09Case) (v c09Verdict) {
 			return template.HTML(s), err
 		},
 	})
+	for name, kv := range cs.Maps {
+		gm := map[string]interface{}{}
+		for k, x := range kv {
+			gm[k] = x
+		}
+		ctx.Set(name, gm)
+	}
 	o := safeCall(3*time.Second, func() (string, error) { return plush.Render(cs.Tmpl, ctx) })
 	v.Tags = append(v.Tags, o.Kind())
 	if o.Kind() == "HANG" {
@@ -450,8 +497,9 @@ func c09Record(rep *Report, cs *c09Case, v c09Verdict) {
 func init() {
 	oracles["C09"] = func(cfg Config) []*Report {
 		rep := NewReport("C09", "C09", cfg)
-		rep.Rule = "programs = nestings to depth 3 of {for, user function definition+call, partial (partialFeeder), contentFor+contentOf with data, contentOf with own block and data, block helper using BlockWith(own context), transparent if} over the names x,y,z with let / shadowing let / loop variables, 0-3 parameters per function and data keys drawn from the same names; every operand position (call argument, let right-hand side, hash value of partial/contentOf/block-helper data, element of a loop's array) holds a literal, a read of one of the names (steered towards names the receiving construct binds itself and that are bound at the call site: f(y, x) for fn(x, y), {x: y, y: x}, let x = x, for (x) in [x]) or - arguments and let - a call of a user function whose body probes, nested up to 2 deep; operands are predicted in the scope where they are written (arguments left to right in the caller's scope before any parameter is bound); a read is written as the bare identifier when the reference says it is bound to a known non-nil value in every reading, else through the helper c09v (plush rejects unbound/nil identifiers: not this property); and a probe before, inside (first and last) and after every construct; each probe observes a name through a helper's HelperContext and, outside function bodies, through the output (<%= x == nil %>, <%= x %>); prediction by an environment-chain interpreter run in all 8 readings of what the property leaves open (scope per loop vs per iteration; function and contentFor bodies resolved in the defining vs the calling scope), union accepted per probe. Every case reaches >= 1 scoped construct except shape=flat (top-level let persistence, ~3%); non-trivial = has a scoped construct; distinct by case text"
+		rep.Rule = "programs = nestings to depth 3 of {for, user function definition+call, partial (partialFeeder), contentFor+contentOf with data, contentOf with own block and data, block helper using BlockWith(own context), transparent if} over the names x,y,z with let / shadowing let / loop variables, 0-3 parameters per function and data keys drawn from the same names; every operand position (call argument, let right-hand side, hash value of partial/contentOf/block-helper data, element of a loop's array) holds a literal, a read of one of the names (steered towards names the receiving construct binds itself and that are bound at the call site: f(y, x) for fn(x, y), {x: y, y: x}, let x = x, for (x) in [x]) or - arguments and let - a call of a user function whose body probes, nested up to 2 deep; operands are predicted in the scope where they are written (arguments left to right in the caller's scope before any parameter is bound); a read is written as the bare identifier when the reference says it is bound to a known non-nil value in every reading, else through the helper c09v (plush rejects unbound/nil identifiers: not this property); the data of a partial / contentOf / block helper is an inline hash (a fresh value per evaluation) or a hash that outlives the call: held in a template variable (let h1 = {…}, written in any block, ~11% of programs hand one to a partial, ~8% to contentOf) or a Go map[string]interface{} in the render context (g1, 20% of programs), handed to any number of later constructs (in sequence, nested, in loops, in function bodies); a partial rendered earlier is rendered again from the same or a deeper block with the same or other data (~5%); the reference treats a hash as a value: every construct binds the pairs it had when it was written; and a probe before, inside (first and last) and after every construct; each probe observes a name through a helper's HelperContext and, outside function bodies, through the output (<%= x == nil %>, <%= x %>); prediction by an environment-chain interpreter run in all 8 readings of what the property leaves open (scope per loop vs per iteration; function and contentFor bodies resolved in the defining vs the calling scope), union accepted per probe. Every case reaches >= 1 scoped construct except shape=flat (top-level let persistence, ~3%); non-trivial = has a scoped construct; distinct by case text"
 		rep.Notes = append(rep.Notes,
+			"not checked: the contents of a hash variable / Go map after it was handed to a construct (h1[\"x\"], len(h1)) - only the names x,y,z are observed, so a construct that writes into its data is seen when the same hash reaches a second construct",
 			"not checked (left open by the statement): assignment (x = …) inside a construct; let directly inside an if block (if is not a scope); block helpers using help.Block(); whether a let in a loop body is visible to the next iteration; lexical vs dynamic resolution of a function's free variables",
 			"the value of a user-function call is never predicted (a name bound to it accepts any observation); probes that ran while a call's arguments were being evaluated, or that look at a parameter whose argument was a variable read, carry +during-args / +param-from-var in the failure site",
 			"function bodies are written across tags without return and observed only through the helper probe, so the oracle does not depend on what a call's value is (C16)")
